@@ -42,10 +42,10 @@ func set(names ...string) map[string]bool {
 var randFuncs = set("Uint32", "Float64", "Uint64", "Int63", "Int31", "Int", "Int64", "Int32", "Intn", "IntN", "Int63n", "Int31n", "Int64N", "Int32N", "Uint32N", "Uint64N", "UintN", "Float32", "Seed", "Shuffle", "Perm")
 
 var rules = map[string]*rule{
-	"sync":        {"verif/shim/vsync", "vsync", set("Mutex", "RWMutex", "Once", "WaitGroup", "Cond", "NewCond")},
-	"sync/atomic": {"verif/shim/vatomic", "vatomic", set("Uint32", "Int32", "Uint64", "Int64", "Bool", "Pointer", "Value", "AddUint32", "AddInt32", "AddUint64", "AddInt64", "LoadUint32", "LoadInt32", "LoadUint64", "LoadInt64", "StoreUint32", "StoreInt32", "StoreUint64", "StoreInt64", "CompareAndSwapUint32", "CompareAndSwapInt32", "CompareAndSwapUint64", "CompareAndSwapInt64")},
-	"time":        {"verif/shim/vtime", "vtime", set("Now", "Since", "Until", "Sleep", "After", "NewTimer", "AfterFunc", "NewTicker", "Tick", "Timer", "Ticker")},
-	"context":     {"verif/shim/vctx", "vctx", set("Background", "TODO", "WithCancel", "WithCancelCause", "WithDeadline", "WithDeadlineCause", "WithTimeout", "WithTimeoutCause", "Cause", "WithValue", "WithoutCancel", "AfterFunc")},
+	"sync":                       {"verif/shim/vsync", "vsync", set("Mutex", "RWMutex", "Once", "WaitGroup", "Cond", "NewCond")},
+	"sync/atomic":                {"verif/shim/vatomic", "vatomic", set("Uint32", "Int32", "Uint64", "Int64", "Bool", "Pointer", "Value", "AddUint32", "AddInt32", "AddUint64", "AddInt64", "LoadUint32", "LoadInt32", "LoadUint64", "LoadInt64", "StoreUint32", "StoreInt32", "StoreUint64", "StoreInt64", "CompareAndSwapUint32", "CompareAndSwapInt32", "CompareAndSwapUint64", "CompareAndSwapInt64")},
+	"time":                       {"verif/shim/vtime", "vtime", set("Now", "Since", "Until", "Sleep", "After", "NewTimer", "AfterFunc", "NewTicker", "Tick", "Timer", "Ticker")},
+	"context":                    {"verif/shim/vctx", "vctx", set("Background", "TODO", "WithCancel", "WithCancelCause", "WithDeadline", "WithDeadlineCause", "WithTimeout", "WithTimeoutCause", "Cause", "WithValue", "WithoutCancel", "AfterFunc")},
 	"golang.org/x/sync/errgroup": {"verif/shim/verrgroup", "verrgroup", set("Group", "WithContext")},
 	"math/rand":                  {"verif/shim/vrand", "vrand", randFuncs},
 	"math/rand/v2":               {"verif/shim/vrand", "vrand", randFuncs},
@@ -74,6 +74,7 @@ type fileInstr struct {
 	path     string
 	opt      options
 	changed  bool
+	tmpN     int
 }
 
 func (fi *fileInstr) sel(pkg, name string, pos token.Pos) *ast.SelectorExpr {
@@ -338,6 +339,26 @@ func (fi *fileInstr) rewriteStmt(s ast.Stmt) ast.Stmt {
 		hasDefault := "false"
 		var chans []ast.Expr
 		var clauses []ast.Stmt
+		var pre []ast.Stmt
+		// Go evaluates every channel operand (and every value to send) exactly once, on entering the select: operands that
+		// are not plain names are hoisted into temporaries so that the comm statement inside the case uses the same channel
+		hoist := func(e ast.Expr) ast.Expr {
+			pure := true
+			ast.Inspect(e, func(n ast.Node) bool {
+				switch n.(type) {
+				case *ast.CallExpr, *ast.UnaryExpr, *ast.IndexExpr, *ast.FuncLit:
+					pure = false
+				}
+				return pure
+			})
+			if pure {
+				return e
+			}
+			fi.tmpN++
+			id := ast.NewIdent(fmt.Sprintf("_vsel%d", fi.tmpN))
+			pre = append(pre, &ast.AssignStmt{Lhs: []ast.Expr{id}, Tok: token.DEFINE, Rhs: []ast.Expr{e}})
+			return ast.NewIdent(id.Name)
+		}
 		idx := 0
 		for _, c := range x.Body.List {
 			cc := c.(*ast.CommClause)
@@ -350,15 +371,19 @@ func (fi *fileInstr) rewriteStmt(s ast.Stmt) ast.Stmt {
 			switch cm := cc.Comm.(type) {
 			case *ast.ExprStmt:
 				if u, ok := cm.X.(*ast.UnaryExpr); ok && u.Op == token.ARROW {
+					u.X = hoist(u.X)
 					chExpr = u.X
 				}
 			case *ast.AssignStmt:
 				if len(cm.Rhs) == 1 {
 					if u, ok := cm.Rhs[0].(*ast.UnaryExpr); ok && u.Op == token.ARROW {
+						u.X = hoist(u.X)
 						chExpr = u.X
 					}
 				}
 			case *ast.SendStmt:
+				cm.Chan = hoist(cm.Chan)
+				cm.Value = hoist(cm.Value)
 				chExpr = &ast.CallExpr{Fun: fi.vs("SendCase", cm.Pos()), Args: []ast.Expr{cm.Chan}}
 				fi.skipComm[cm] = true
 			}
@@ -373,7 +398,11 @@ func (fi *fileInstr) rewriteStmt(s ast.Stmt) ast.Stmt {
 			idx++
 		}
 		args := append([]ast.Expr{ast.NewIdent(hasDefault)}, chans...)
-		return &ast.SwitchStmt{Switch: pos, Tag: &ast.CallExpr{Fun: fi.vs("Select", pos), Args: args}, Body: &ast.BlockStmt{Lbrace: x.Body.Lbrace, List: clauses, Rbrace: x.Body.Rbrace}}
+		sw := &ast.SwitchStmt{Switch: pos, Tag: &ast.CallExpr{Fun: fi.vs("Select", pos), Args: args}, Body: &ast.BlockStmt{Lbrace: x.Body.Lbrace, List: clauses, Rbrace: x.Body.Rbrace}}
+		if len(pre) == 0 {
+			return sw
+		}
+		return &ast.BlockStmt{Lbrace: pos, List: append(pre, sw)}
 	}
 	return nil
 }
